@@ -24,40 +24,45 @@ ASSUMPTIONS = [
     "the oracle is dfh.meta_problem (type, column names and order, dtypes, Series name, index names, index dtype of non-empty results) applied to the computed "
     "object and to every partition computed separately through .partitions[i]; plus: a scalar meta needs a scalar result, Index names must agree",
     "documented difference: a categorical whose categories are UNKNOWN in meta only has to compute to a categorical (categories are data)",
+    "the frames are the same for every VERIF_SEED (the seed only rotates the shard order): which dtype pandas gives a partition depends on the values it holds, "
+    "so seed-dependent data would make the set of finding keys seed-dependent",
     "a dask exception on a program is counted (dask_raises), not a C42 violation: C42 speaks about results that exist (C36-C40/C46 own the crashes)",
 ]
 
 CONFIGS = [
-    ("sorted_unique", (2, 4), "auto"),
-    ("range", (0, 3, 0, 3), "auto"),
-    ("sorted_dup", (2, 1, 3), "auto"),
-    ("datetime", (3, 3), "unknown"),
+    ("range", (0, 3, 0, 3), "auto"),  # unknown divisions, empty partitions
+    ("datetime", (3, 3), "auto"),  # known divisions, datetime index
+    ("sorted_dup", (2, 1, 3), "auto"),  # known divisions, duplicated labels
+    ("sorted_unique", (2, 4), "unknown"),
     ("unsorted", (1, 2, 3), "auto"),
     ("range", (6,), "auto"),
-    ("datetime", (1, 1, 4), "auto"),
+    ("datetime", (1, 1, 4), "unknown"),
     ("sorted_unique", (6, 0), "auto"),
 ]
-NSH = {"M1": 4, "M2": 8}
+NSH = {"M1": 4, "M2": 6}
+DATA_SEED = 0  # see ASSUMPTIONS: the data do not depend on VERIF_SEED
 
 
 def RULE(tier):
+    common = (
+        "6 base frames (int/float+NaN/bool/str/datetime/categorical/nullable columns, 6 rows).  Union alphabet = row-wise alphabet of C36 (~80 frame steps, 40-60 per series "
+        "kind) + extended alphabet (~190 frame steps: every reduction x axis/numeric_only, describe/quantile/mode/cov/corr, nlargest, sort_values/set_index/reset_index/"
+        "drop_duplicates/shuffle/repartition, ~75 groupby forms, 20 merge/join/concat/merge_asof forms, ~30 rolling/cumulative/shift/diff/fill forms, loc/iloc/head/tail/melt/"
+        "pivot_table/query/eval; ~70 series steps).  For every program: the computed object AND every partition computed separately (.partitions[i]) vs ._meta.  "
+        "non-trivial = >= 2 input partitions.  "
+    )
     if tier == "quick":
-        return (
-            "6 base frames x M1: EVERY 1-step program over the union alphabet (row-wise alphabet of C36 ~80 frame steps + ~190 extended frame steps: every reduction x "
-            "axis/numeric_only, describe/quantile/mode/cov/corr, nlargest, sort_values/set_index/reset_index/drop_duplicates/shuffle/repartition, ~75 groupby forms, 20 "
-            "merge/join/concat/merge_asof forms, ~30 rolling/cumulative/shift/diff/fill forms, loc/iloc/head/tail/melt/pivot_table/query/eval ...) x 4 configurations "
-            "(index kind x partitioning with empty partitions x known/unknown divisions); M2: every 2-step program prefix x full where prefix is in the core alphabet "
-            "(columns, projections, filters, assign, set_index, reset_index, sort_values, repartition, groupby-agg, merge, concat, cumsum, shift ...), one configuration per "
-            "program (rotating over 4).  For each: computed object AND each partition computed separately vs ._meta.  non-trivial = >= 2 output partitions or a reduction of >= 2."
+        return common + (
+            "M1: EVERY 1-step program x 3 configurations (unknown divisions with empty partitions / known divisions on a datetime index / known divisions with duplicated "
+            "labels).  M2: every 2-step program (column -> any series step) and (set_index | reset_index | empty filter | astype category -> core step) x 2 configurations."
         )
-    return "as quick with M1 x 8 configurations, M2 x 4 configurations, and M3 = core x core x full programs x 1 rotating configuration"
+    return common + "M1: every 1-step program x 8 configurations; M2: EVERY 2-step program core-prefix x full alphabet (~30k programs) x 4 configurations."
 
 
 def shards(tier):
     out = []
-    fams = ("M1", "M2") + (("M3",) if tier == "thorough" else ())
-    for fam in fams:
-        n = NSH.get(fam, 16) * (2 if tier == "thorough" else 1)
+    for fam in ("M1", "M2"):
+        n = NSH[fam] * (4 if tier == "thorough" and fam == "M2" else 1)
         for f in FRAMES:
             for part in range(n):
                 out.append((fam, f, part, n))
@@ -66,28 +71,24 @@ def shards(tier):
 
 def cases_of(shard, tier, seed, counters=None):
     fam, fname, part, n = shard
-    pdf0 = dfh.base_frames(seed, NROWS)[fname]
+    pdf0 = dfh.base_frames(DATA_SEED, NROWS)[fname]
     pick = lambda i: i % n == part  # noqa: E731
-    levels = {"M1": ("full",), "M2": ("core", "full"), "M3": ("core", "core", "full")}[fam]
     if fam == "M1":
-        configs, rotate = (CONFIGS[:4] if tier == "quick" else CONFIGS), False
-    elif fam == "M2":
-        configs, rotate = CONFIGS[:4], tier == "quick"
+        levels, configs = ("full",), (CONFIGS[:3] if tier == "quick" else CONFIGS)
+    elif tier == "quick":
+        levels, configs = ("mini", "full"), CONFIGS[:2]
     else:
-        configs, rotate = CONFIGS[:4], True
+        levels, configs = ("core", "full"), CONFIGS[:4]
     for kind in sorted({c[0] for c in configs}):
         root = dfh.with_index(pdf0, kind)
-        j = 0
         for prog, xs in P.enumerate_programs(root, levels, first_filter=pick, counters=counters, steps=P.ext_steps_for):
             if len(prog) != len(levels):
                 continue
-            j += 1
-            for ci, c in enumerate(configs):
-                if c[0] != kind:
-                    continue
-                if rotate and j % len(configs) != ci:
-                    continue
-                yield (fam, fname, kind, c[1], c[2], prog), xs
+            if fam == "M2" and tier == "quick" and prog[0][0] != "col" and prog[1] not in P.ext_steps_for(xs[1], "core"):
+                continue
+            for c in configs:
+                if c[0] == kind:
+                    yield (fam, fname, kind, c[1], c[2], prog), xs
 
 
 # ------------------------------------------------------------------------------------------------ oracle
@@ -160,7 +161,7 @@ QUIET = ("ok", "dask_raises", "not_lazy", "out_of_scope", "unsupported_api")
 def evaluate(case, pxs, seed):
     """-> (status, detail, pxs, info)"""
     fam, fname, kind, parts, divmode, prog = case[:6]
-    root = dfh.with_index(dfh.base_frames(seed, NROWS)[fname], kind)
+    root = dfh.with_index(dfh.base_frames(DATA_SEED, NROWS)[fname], kind)
     if pxs is None:
         with np.errstate(all="ignore"):
             pxs = P.run_pandas(prog, root, None)
@@ -179,7 +180,8 @@ def evaluate(case, pxs, seed):
                 seen = set()
                 for i, piece in enumerate(pieces):
                     for c, cause, m in meta_vs(meta, piece):
-                        cause = ("empty-partition:" if len(piece) == 0 else "") + cause
+                        if len(piece) == 0:
+                            cause = "empty-partition"  # one defect per operation: an empty partition keeps pandas' empty-input result schema
                         if (c, cause) not in seen:
                             seen.add((c, cause))
                             problems.append((f"partition-meta-{c}", cause, f"partition {i} of {d.npartitions} ({len(piece)} rows): " + m))
